@@ -188,12 +188,10 @@ Proof.
   unfold str_query. cbn [top_cls]. cbn [rquery].
   cbn [name_from name_joins src_refs map app List.length Nat.eqb Nat.ltb Nat.leb negb orb base_tables flat_map].
   rewrite fix_sets. fold K.
-  change (match option_map IT w with
-          | Some (IT w0) =>
-              existsb (fun o : option tref => match o with
-                                              | Some tb => negb (existsb (tref_eqb (resolve_tref [] tb)) [tbl])
-                                              | None => false end) (field_tables w0)
-          | _ => false end || false) with (upd_wns tbl w).
+  change (existsb (fun o : option tref => match o with
+                                          | Some tb => negb (existsb (tref_eqb (resolve_tref [] tb)) [tbl])
+                                          | None => false end)
+                 (match option_map IT w with Some w0 => item_tables w0 | None => [] end) || false) with (upd_wns tbl w).
   set (B := set_wn (kc K) (upd_wns tbl w)).
   rewrite (sets_part (with_c K B) (set_wn B false) B sets K_q K_sq Hl).
   rewrite (table_sql_plain B tbl Ht). change (q B) with (q (kc K)). rewrite K_q, Hch, page_tail_none.
@@ -219,13 +217,11 @@ Proof.
   intros Ht. destruct (dml_cls_ok_spec c Hc) as (_ & _ & _ & _ & Hch).
   unfold str_query. cbn [top_cls]. cbn [rquery]. cbn [name_from src_refs]. fold K.
   change ((1 <? Datatypes.length [SrcT tbl])%nat || false
-          || match option_map IT w with
-             | Some (IT w0) =>
-                 existsb (fun o : option tref =>
+          || existsb (fun o : option tref =>
                             match o with
                             | Some tb => negb (existsb (tref_eqb (resolve_tref [src_ref (SrcT tbl) None] tb)) [src_ref (SrcT tbl) None])
-                            | None => false end) (field_tables w0)
-             | _ => false end) with (del_wns tbl w).
+                            | None => false end)
+                     (match option_map IT w with Some w0 => item_tables w0 | None => [] end)) with (del_wns tbl w).
   set (B := set_wn (kc K) (del_wns tbl w)).
   rewrite (table_sql_plain B tbl Ht). change (q B) with (q (kc K)). rewrite K_q, Hch. cbn [bind].
   destruct w as [w0|].
